@@ -34,6 +34,17 @@ Callee(k, nm) ==
                        <<Assign("z", Bin("BitXor", Name("x"), Name("y"))), Assign("z", Bin("Add", Name("z"), Name("x"))), Ret(Name("z"))>>, I2)
     [] k = 7 -> FunDef(nm, <<Arg("x", TBool), Arg("y", TBool), Arg("z", TBool)>>,
                        <<Ret(IfE(Name("x"), Name("y"), Un("Not", Name("z"))))>>, TBool)
+    \* callees that RE-ASSIGN a formal after an intermediate has read it (the compression of the callee to its return
+    \* expressions must inline the definitions simultaneously)
+    [] k = 11 -> FunDef(nm, <<Arg("x", TBool), Arg("y", TBool)>>,
+                        <<Assign("c", BoolOpN("And", <<Name("x"), Name("y")>>)), Assign("x", Un("Not", Name("x"))),
+                          Ret(BoolOpN("Or", <<Name("c"), BoolOpN("And", <<Name("x"), Name("y")>>)>>))>>, TBool)
+    [] k = 12 -> FunDef(nm, <<Arg("x", I2), Arg("y", I2)>>,
+                        <<Assign("z", Bin("Add", Name("x"), Name("y"))), Assign("x", Bin("BitXor", Name("z"), Name("x"))),
+                          Assign("y", Bin("Add", Name("x"), CI(1))), Ret(Bin("BitXor", Name("y"), Name("z")))>>, I2)
+    \* a predicate of one argument (for equality oracles with a boolean element)
+    [] k = 13 -> FunDef(nm, <<Arg("q", TTup(<<I2, TBool>>))>>,
+                        <<Ret(BoolOpN("And", <<Sub(Name("q"), CI(1)), Cmp("Gt", Sub(Name("q"), CI(0)), CI(1))>>))>>, TBool)
 
 \* caller signatures by element kind
 BoolSig(an, bn) == <<Arg(an, TBool), Arg(bn, TBool), Arg("t", TTup(<<TBool, TBool>>))>>
@@ -52,7 +63,7 @@ PB(nm, fam) ==
   LET BA == BoolActuals(nm[2], nm[3])  IA == IntActuals(nm[2], nm[3])  g == nm[1] IN
   CASE fam = "bool2" ->
          {Pair(Callee(k, g), BoolSig(nm[2], nm[3]), <<Ret(CallN(g, <<x, y>>))>>, TBool, r) :
-            k \in {1, 8}, x \in BA, y \in BA, r \in {"defs", "inline"}}
+            k \in {1, 8, 11}, x \in BA, y \in BA, r \in {"defs", "inline"}}
     [] fam = "bool2x2" ->   \* two calls in one expression
          {Pair(Callee(1, g), BoolSig(nm[2], nm[3]),
                <<Ret(BoolOpN("Or", <<CallN(g, <<x, y>>), CallN(g, <<y, Name(nm[2])>>)>>))>>, TBool, "defs") : x \in BA, y \in BA}
@@ -67,7 +78,7 @@ PB(nm, fam) ==
                  \cup {Bin("Add", CallN(g, <<x>>), CallN(g, <<Name(nm[3])>>)) : x \in IA}}
     [] fam = "int2" ->
          {Pair(Callee(k, g), IntSig(nm[2], nm[3]), <<Ret(CallN(g, <<x, y>>))>>, IF k \in {3, 10} THEN TBool ELSE I2, r) :
-            k \in {3, 6, 10}, x \in IA, y \in IA, r \in {"defs", "inline"}}
+            k \in {3, 6, 10, 12}, x \in IA, y \in IA, r \in {"defs", "inline"}}
     [] fam = "tuple" ->     \* tuple-typed formal: whole tuple variable / tuple display of scalars
          {Pair(Callee(4, g), IntSig(nm[2], nm[3]), <<Ret(CallN(g, <<x>>))>>, I2, r) :
             r \in {"defs", "inline"},
@@ -82,6 +93,9 @@ Orac == {[callee |-> Callee(k, g), route |-> "oraclize", element |-> e,
           caller |-> FunDef("oracle", <<Arg("v", IF k = 2 THEN I2 ELSE TTup(<<I2, TBool>>))>>,
                             <<Ret(Cmp("Eq", CallN(g, <<Name("v")>>), CI(e)))>>, TBool)] :
            k \in {2, 4}, g \in {"g", "oracle", "v"}, e \in 0..3}
+        \cup {[callee |-> Callee(13, g), route |-> "oraclize", element |-> e,
+                caller |-> FunDef("oracle", <<Arg("v", TTup(<<I2, TBool>>))>>,
+                                  <<Ret(Cmp("Eq", CallN(g, <<Name("v")>>), CB(e)))>>, TBool)] : g \in {"g", "oracle"}, e \in BOOLEAN}
 
 Pats == IF Family = "oraclize" THEN Orac ELSE UNION {PB(nm, Family) : nm \in Names}
 
